@@ -7,6 +7,7 @@ class-kind function (`ClassKindFn`, or `none` = `defaultClassKind`), every mode/
 configuration and every directory listing.
 -/
 import GopModel.Model.DirClassify
+set_option linter.unusedSimpArgs false
 namespace GopModel.DirClassify
 
 /-! ## What the statement calls things -/
